@@ -401,5 +401,9 @@ class SED(object):
         apertures[np.log10(sed_wav) < log10_ap_interp.x[0]] = 10. ** log10_ap_interp.y[0]
         apertures[np.log10(sed_wav) > log10_ap_interp.x[-1]] = 10. ** log10_ap_interp.y[-1]
 
+        # Going through log10 and back can push values that are exactly on the
+        # smallest/largest tabulated aperture just outside the table
+        apertures = np.clip(apertures, sed_apertures.min(), sed_apertures.max())
+
         # Interpolate and return only diagonal elements
         return flux_interp(apertures).diagonal()
